@@ -70,6 +70,9 @@ func acquireFromHolder(len int) (uintptr, *[]byte, error) {
 		logger.Error("placeholder space usage overflow", placeHolderIns.count, "hook functions")
 		return 0, nil, errSpaceOverflow
 	}
+	// the region owned by this request is [newOffset-len, newOffset): another goroutine may
+	// have moved off between the load above and the add, so the loaded value must not be used
+	placeholder = newOffset - uintptr(len)
 
 	bytes := (*[]byte)(unsafe.Pointer(&reflect.SliceHeader{
 		Data: placeholder,
